@@ -121,6 +121,17 @@ def check_views(P: Any, what: str) -> Optional[tuple[str, str]]:
                     return (f'map-values:{type(P).__name__}.{name}', f'after {what}: values() = {_show(vals)} but the items give {_show(expv)}')
                 if [k for k, _ in its] != keys or not same_list([v for _, v in its], expv) or [k for k, _ in reversed(w.items())] != keys[::-1]:
                     return (f'map-items:{type(P).__name__}.{name}', f'after {what}: items() = {its!r} disagrees with keys() / values()')
+                # the dict views answer membership, set operations and repr like a dict's views
+                for k_, v_ in zip(keys, expv):
+                    if k_ not in w.keys() or (k_ + '~') in w.keys():
+                        return (f'map-keys-contains:{type(P).__name__}.{name}', f'after {what}: {k_!r} in keys() is wrong')
+                    first_v = expv[keys.index(k_)]
+                    if (k_, first_v) not in w.items() or (k_ + '~', first_v) in w.items():
+                        return (f'map-items-contains:{type(P).__name__}.{name}', f'after {what}: ({k_!r}, first value) in items() is wrong')
+                    if v_ not in w.values():
+                        return (f'map-values-contains:{type(P).__name__}.{name}', f'after {what}: a value is not in values()')
+                if (w.keys() & set(keys[:1])) != set(keys[:1]) or not isinstance(repr(w.keys()) + repr(w.values()) + repr(w.items()), str):
+                    return (f'map-keys-setop:{type(P).__name__}.{name}', f'after {what}: keys() & {{first key}} is wrong')
                 for x in items:
                     first = next(y for y in items if y.key == x.key)
                     got1 = w[x.key]
